@@ -107,6 +107,13 @@ pub fn dict0() -> GDict {
     d.add(GDef { code: 4294967295, vendor: None, name: "MaxCode".into(), ty: T_OCT, m: false });
     d.add(GDef { code: 0, vendor: Some(0), name: "Zero".into(), ty: T_U64, m: true });
     d.add(GDef { code: 200, vendor: None, name: "Odd".into(), ty: T_UNKNOWN, m: false });
+    // well-known base codes (Session-Id, Origin-Host, Result-Code, ...), typed here otherwise than RFC 6733 types them:
+    // the dictionary alone decides, and nothing about these codes is special to the codec
+    for (code, ty) in [(263u32, T_U64), (264, T_U32), (268, T_UTF8), (283, T_OCT), (293, T_I32), (296, T_ADDRESS), (258, T_F32), (260, T_IDENT), (257, T_UTF8), (1, T_ADDRESS)] {
+        if d.defs.iter().all(|x| !(x.code == code && x.vendor.is_none())) {
+            d.add(GDef { code, vendor: None, name: format!("WK{}", code), ty, m: code % 2 == 0 });
+        }
+    }
     // codes that alias code 1 / code 9 when narrowed to 8, 16 or 24 bits
     d.add(GDef { code: 257, vendor: None, name: "Alias8".into(), ty: T_UTF8, m: false });
     d.add(GDef { code: 65537, vendor: None, name: "Alias16".into(), ty: T_U64, m: true });
@@ -1380,6 +1387,15 @@ fn gen_c05(o: &mut Out, r: &mut Rng, d: &GDict, tier: &str) {
     for _ in 0..(if thorough { 60 } else { 10 }) {
         corpus.push(message(r, d, 5, 3));
     }
+    // every kind of address (an IPv4-mapped IPv6 address is 16 octets like any other)
+    {
+        let adef = d.by_type(T_ADDRESS)[0].clone();
+        let mut m = header(r);
+        for v in [GV::Addr4([10, 0, 0, 1]), GV::Addr6({ let mut b = [0u8; 16]; b[10] = 0xff; b[11] = 0xff; b[12..].copy_from_slice(&[10, 0, 0, 1]); b }), GV::Addr6([0; 16]), GV::Addr6({ let mut b = [0u8; 16]; b[15] = 1; b }), GV::E164("359898000135777".into()), GV::E164("1".into())] {
+            m.avps.push(GA { code: adef.code, vendor: adef.vendor, flags: 0x40, v });
+        }
+        corpus.push(m);
+    }
     // padding 1, 2, 3 at the very end of the frame
     for l in [1usize, 2, 3, 5, 6, 7] {
         let mut m = header(r);
@@ -1688,6 +1704,36 @@ fn gen_c06(o: &mut Out, r: &mut Rng, d: &GDict, tier: &str) {
             o.line(&format!("sdec {} d:{}", n - 1, hex(&stream)));
         }
     }
+    // large frames (6 KB, 40 KB, 300 KB) between small ones, delivered one octet at a time (with and without a pause before
+    // every octet), in pieces of 1000, whole: how finely a stream is delivered is not a property of the frame
+    {
+        let oc = d.by_type(T_OCT)[0].clone();
+        for big in if thorough { vec![6001usize, 40003, 300002] } else { vec![6001, 40003] } {
+            let mut m = header(r);
+            m.avps.push(GA { code: oc.code, vendor: oc.vendor, flags: 0, v: GV::Oct(r.bytes(big)) });
+            let frames = [small[1].encode(&mut None), m.encode(&mut None), small[2].encode(&mut None)];
+            let stream: Vec<u8> = frames.concat();
+            let lens: Vec<String> = frames.iter().map(|f| f.len().to_string()).collect();
+            o.case(&format!("stream frames={}", lens.join(",")));
+            o.line(&format!("sdec 4 d:{}", hex(&stream)));
+            o.line(&format!("sdec 4 {}", stream.chunks(1000).map(|c| format!("d:{}", hex(c))).collect::<Vec<_>>().join(",")));
+            if big < 100000 {
+                o.line(&format!("sdec 4 {}", stream.iter().map(|b| format!("d:{:02x}", b)).collect::<Vec<_>>().join(",")));
+                o.line(&format!("sdec 4 {}", stream.iter().map(|b| format!("p,d:{:02x}", b)).collect::<Vec<_>>().join(",")));
+            }
+        }
+    }
+    // a read call that fails with `Interrupted` in the middle of a prefix or of a body: the call fails, and has taken
+    // exactly what was delivered before (nothing is read twice, nothing of what follows is touched)
+    for ms in streams.iter().take(6) {
+        let frames: Vec<Vec<u8>> = ms.iter().map(|m| m.encode(&mut None)).collect();
+        let stream: Vec<u8> = frames.concat();
+        let lens: Vec<String> = frames.iter().map(|f| f.len().to_string()).collect();
+        o.case(&format!("interrupted frames={}", lens.join(",")));
+        for k in 0..stream.len().min(60) {
+            o.line(&format!("sdec {} {}i,d:{}", frames.len() + 1, if k == 0 { String::new() } else { format!("d:{},", hex(&stream[..k])) }, hex(&stream[k..])));
+        }
+    }
     // write side: partial-write patterns
     let mut msgs = small.clone();
     for _ in 0..(if thorough { 60 } else { 12 }) {
@@ -1706,6 +1752,24 @@ fn gen_c06(o: &mut Out, r: &mut Rng, d: &GDict, tier: &str) {
             o.line(&format!("senc {}", vec![format!("a{}", k); total / k + 1].join(",")));
         }
         for _ in 0..(if thorough { 200 } else { 40 }) {
+            o.line(&format!("senc {}", random_wscript(r, total)));
+        }
+    }
+    // large messages (beyond any slice or record size an encoder might work in): accepted 1000 octets at a time, in
+    // random amounts, around pauses
+    for big in [20_000usize, 40_000, 70_000] {
+        o.case(&format!("write big len={}", big));
+        o.line("new 272 4 0 1 2");
+        o.line("clear");
+        o.line(&format!("val octn {} 6b", big));
+        o.line(&format!("add_avp {} - 0", d.by_type(T_OCT)[0].code));
+        let total = 28 + big + pad(big);
+        o.line("senc -");
+        o.line(&format!("senc {}", vec!["a1000"; total / 1000 + 1].join(",")));
+        o.line(&format!("senc {}", vec!["p,a1000"; total / 1000 + 1].join(",")));
+        o.line(&format!("senc {}", vec!["a16383"; total / 16383 + 1].join(",")));
+        o.line(&format!("senc a16384,a1,a{}", total));
+        for _ in 0..6 {
             o.line(&format!("senc {}", random_wscript(r, total)));
         }
     }
@@ -1772,6 +1836,12 @@ fn gen_c07(o: &mut Out, r: &mut Rng, d: &GDict, tier: &str) {
                 ev.push(format!("d:{}", hex(&f[4..])));
                 o.line(&format!("sdec 1 {}", ev.join(",")));
             }
+            // a read call failing with `Interrupted` after part of the prefix, and after part of the body: the call fails
+            // having taken exactly what was delivered
+            if l <= 4096 || l >= (1 << 20) - 16 {
+                o.line(&format!("sdec 1 d:{},i,d:{}", hex(&f[..2]), hex(&f[2..])));
+                o.line(&format!("sdec 1 d:{},i,d:{}", hex(&f[..9]), hex(&f[9..])));
+            }
             // the same announcement as the second frame of the stream, behind a well-formed header-only frame: later frames
             // are guarded like the first (the judge looks at the second result: `second=1`)
             {
@@ -1818,8 +1888,17 @@ fn gen_c08(o: &mut Out, r: &mut Rng, d: &GDict, tier: &str, cuts: bool) {
     let n_corpus = if cuts { if thorough { 250 } else { 10 } } else if thorough { 1500 } else { 50 };
     for ci in 0..n_corpus {
         let nreq = 1 + r.below(if cuts { 4 } else { 8 }) as usize;
-        let reqs: Vec<GM> = (0..nreq).map(|_| if ci % 3 == 0 { small_messages(r, d)[r.below(4) as usize].clone() } else { message(r, d, 3, 2) }).collect();
-        let answers: Vec<GM> = (0..nreq).map(|_| message(r, d, 4, 2)).collect();
+        let mut reqs: Vec<GM> = (0..nreq).map(|_| if ci % 3 == 0 { small_messages(r, d)[r.below(4) as usize].clone() } else { message(r, d, 3, 2) }).collect();
+        let mut answers: Vec<GM> = (0..nreq).map(|_| message(r, d, 4, 2)).collect();
+        if ci % 5 == 1 && nreq >= 2 {
+            // a base-protocol request that "means" something to a peer state machine (Disconnect-Peer, Device-Watchdog,
+            // Capabilities-Exchange), answered without the E flag, with ordinary requests behind it: to this server a
+            // request is a request
+            let k = r.below(nreq as u64 - 1) as usize;
+            let cmd = [282u32, 280, 257][(ci / 5) % 3];
+            reqs[k] = GM { version: 1, flags: 0x80, cmd, app: 0, hbh: 7000 + ci as u32, e2e: 7000 + ci as u32, avps: vec![] };
+            answers[k] = GM { version: 1, flags: 0x00, cmd, app: 0, hbh: 7000 + ci as u32, e2e: 7000 + ci as u32, avps: vec![] };
+        }
         let rf: Vec<Vec<u8>> = reqs.iter().map(|m| m.encode(&mut Some(r))).collect();
         let af: Vec<Vec<u8>> = answers.iter().map(|m| m.encode(&mut None)).collect();
         let stream: Vec<u8> = rf.concat();
@@ -2022,7 +2101,7 @@ fn gen_c08(o: &mut Out, r: &mut Rng, d: &GDict, tier: &str, cuts: bool) {
 
 fn gen_c10(o: &mut Out, r: &mut Rng, tier: &str) {
     let thorough = tier == "thorough";
-    let faults = ["malformed", "oversized", "short", "stall_midframe", "stall_handshake", "half_hello", "reset", "panic", "garbage_close", "hello_close", "plain_req_close", "stall_announce_max"];
+    let faults = ["malformed", "oversized", "short", "stall_midframe", "stall_handshake", "half_hello", "reset", "panic", "garbage_close", "hello_close", "plain_req_close", "stall_announce_max", "panic_sync"];
     let whens = ["before", "during", "after"];
     // the scenario table: fault kind x moment x listener kind; number of well-behaved clients and of faulty peers vary
     for tls in [0, 1] {
@@ -2049,6 +2128,11 @@ fn gen_c10(o: &mut Out, r: &mut Rng, tier: &str) {
             let many = if thorough { 1100 } else { 130 };
             o.case(&format!("listener many fault={} tls={}", f, tls));
             o.line(&format!("lsn tls={} good=2 reqs=3 fault={} when=before nfaulty={}", tls, f, many));
+            // more stalled connections than any default pool of threads or permits holds (512, 1024)
+            if tls == 0 && f == "stall_midframe" {
+                o.case(&format!("listener many fault={} tls={}", f, tls));
+                o.line(&format!("lsn tls={} good=2 reqs=3 fault={} when=before nfaulty={}", tls, f, if thorough { 2100 } else { 700 }));
+            }
         }
     }
 }
@@ -2072,6 +2156,23 @@ fn gen_c13(o: &mut Out, _r: &mut Rng, tier: &str) {
                     }
                 }
             }
+        }
+    }
+    // TLS on, and a peer that makes the handshake fail
+    for verify in [0, 1] {
+        for mode in ["close", "rst", "garbage"] {
+            id += 1;
+            o.case(&format!("rude peer verify={} mode={}", verify, mode));
+            o.line(&format!("tlsrude verify={} mode={} id={}", verify, mode, id));
+        }
+    }
+    // a server whose TLS identity the TLS library refuses to serve (a 1024-bit RSA key): nobody is served, least of all in
+    // plain text
+    for ctls in [0, 1] {
+        for verify in [0, 1] {
+            id += 1;
+            o.case(&format!("weak identity ctls={} verify={}", ctls, verify));
+            o.line(&format!("tls ctls={} verify={} stls=1 cert=weak addr=ip id={} cmd={}", ctls, verify, id, [272u32, 257][id % 2]));
         }
     }
     // a plain-text client against a TLS server, every base command (Capabilities-Exchange first of all)
@@ -2663,36 +2764,39 @@ fn value_for(r: &mut Rng, ty: usize) -> GV {
 
 fn gen_c15(o: &mut Out, r: &mut Rng, _tier: &str, extra: &[String]) {
     // (A) exhaustive table: type-name spelling x entry scope x wire vendor x presence of other-vendor twins
-    let scopes = [None, Some(5u32), Some(6u32)];
-    for tn in TYPE_SPELLINGS {
+    // (vendor id 0 is a vendor id; code 264 is Origin-Host in RFC 6733 - here it is whatever the dictionary says)
+    let scopes = [None, Some(0u32), Some(5u32), Some(6u32)];
+    for (ti, tn) in TYPE_SPELLINGS.iter().enumerate() {
+        let tn = *tn;
         let ty = TY_NAMES.iter().position(|x| *x == tn).unwrap_or(16);
         for scope in scopes {
             for twins in [false, true] {
-                o.case(&format!("table type={:?} entry={} twins={}", tn, vend(scope), twins));
+                let tcode: u32 = [500u32, 264, 263, 296, 283, 293][(ti + twins as usize) % 6];
+                o.case(&format!("table type={:?} entry={} twins={} code={}", tn, vend(scope), twins, tcode));
                 o.line("dreset");
                 o.line("doc_begin");
                 o.line(&format!("app 4 {}", hexd(b"T")));
                 // (enumeration items under the data element are documentation: they never change the type)
-                o.line(&format!("{} {}", doc_avp_line("X", 500, scope, Some("M"), tn), if twins { 2 } else { 0 }));
+                o.line(&format!("{} {}", doc_avp_line("X", tcode, scope, Some("M"), tn), if twins { 2 } else { 0 }));
                 if twins {
                     // the same code under other vendors, typed differently, and a neighbouring code
                     for other in [Some(7u32), Some(4294967295)] {
-                        o.line(&doc_avp_line("Other", 500, other, None, "UTF8String"));
+                        o.line(&doc_avp_line("Other", tcode, other, None, "UTF8String"));
                     }
-                    o.line(&doc_avp_line("Next", 501, scope, None, "Unsigned32"));
+                    o.line(&doc_avp_line("Next", tcode + 1, scope, None, "Unsigned32"));
                 }
                 // groups to put the AVP in: vendor-less, and under each of the scoping vendors
                 o.line(&doc_avp_line("G0", 600, None, None, "Grouped"));
                 o.line(&doc_avp_line("G5", 601, Some(5), None, "Grouped"));
                 o.line(&doc_avp_line("G6", 602, Some(6), None, "Grouped"));
                 o.line("doc_end load");
-                for (wire, fl) in [(None, 0x40u8), (Some(5u32), 0x40), (Some(6u32), 0x40), (Some(7u32), 0x40), (None, 0), (Some(5), 0), (Some(6), 0x20), (Some(7), 0)] {
+                for (wire, fl) in [(None, 0x40u8), (Some(0u32), 0x40), (Some(5u32), 0x40), (Some(6u32), 0x40), (Some(7u32), 0x40), (None, 0), (Some(0), 0), (Some(5), 0), (Some(6), 0x20), (Some(7), 0)] {
                     // (with and without the M bit: "optional" is no licence to guess either)
                     let mut m = header(r);
-                    let a = GA { code: 500, vendor: wire, flags: fl, v: value_for(r, ty) };
+                    let a = GA { code: tcode, vendor: wire, flags: fl, v: value_for(r, ty) };
                     m.avps.push(a.clone());
                     o.line(&format!("dec {}", hex(&m.encode(&mut None))));
-                    o.line(&format!("dget 500 {}", vend(wire)));
+                    o.line(&format!("dget {} {}", tcode, vend(wire)));
                     // nested inside a group too: the enclosing group's vendor must not lend itself to the member,
                     // directly or through a vendor-less group in between
                     for (gc, gv) in [(600u32, None), (601, Some(5u32)), (602, Some(6u32))] {
@@ -2864,12 +2968,17 @@ fn gen_c16(o: &mut Out, r: &mut Rng, tier: &str, extra: &[String]) {
             o.line("enc");
             o.line("len");
             o.line("dump");
-            let bogus = match k % 6 {
+            let bogus = match k % 7 {
                 0 => String::new(),
                 1 => { let n = &names[k % names.len()]; let ws = *r.pick(&[" ", "\t", "\n", "\r\n", "\u{a0}"]); if r.chance(1, 2) { format!("{}{}", n, ws) } else { format!("{}{}", ws, n) } }
                 2 => names[k % names.len()].to_lowercase() + "x",
                 3 => if r.chance(1, 2) { format!("No-Such-{}", r.below(100000)) } else { r.pick(&["Origin-Host", "Session-Id", "User-Name", "Result-Code", "Origin-Realm", "CC-Request-Type", "Host-IP-Address"]).to_string() },
                 4 => names[k % names.len()][..names[k % names.len()].len().saturating_sub(1)].to_string(),
+                5 => {
+                    // a name that looks like a number: the decimal code of a definition, with or without decoration
+                    let c = d.defs.iter().filter(|x| x.vendor.is_none()).map(|x| x.code).nth(k % 7).unwrap_or(1);
+                    [format!("{}", c), format!("0{}", c), format!("+{}", c), format!("{} ", c), format!("0x{:x}", c)][(k / 6) % 5].clone()
+                }
                 _ => { let n = 1 + r.below(12) as usize; text(r, n) }
             };
             if d.defs.iter().any(|x| x.name == bogus) || !bogus.is_char_boundary(bogus.len()) {
@@ -2988,6 +3097,7 @@ pub fn generate(family: &str, seed: u64, tier: &str, extra: &[String], w: &mut d
                 "c01" => Box::new(probes_c01),
                 "c18" => Box::new(|o: &mut Out| {
                     o.line("dump");
+                    o.line("enc");
                     o.line("acc");
                     for c in [1u32, 2, 3, 9, 14, 16, 101, 109, 116, 200, 4294967295, 0, 77, 257, 65537, 16777225, 255, 256, 65535, 65536, 65545, 16777217] {
                         o.line(&format!("get {}", c));
@@ -3160,6 +3270,10 @@ pub fn generate(family: &str, seed: u64, tier: &str, extra: &[String], w: &mut d
         }
         "c12" => {
             emit_dict(o.w, &d0);
+            for end in ["e", "f", "g"] {
+                o.case(&format!("client switch end={}", end));
+                o.line(&format!("cliswitch {}", end));
+            }
             gen_c12(&mut o, &mut r, &d0, tier);
             let mut uid = 800000u32;
             gen_reuse(&mut o, &mut r, &d0, tier, &mut uid);
